@@ -3,7 +3,7 @@
 #  (1) with mutant + demo applied: the existing 66 tests pass and the demo fails; (2) without the mutant the demo passes
 id=$1; wt=/tmp/mut/$id; out=/tmp/mut/$id-out
 cd $wt || exit 2
-git checkout -q -- . ; git clean -fdq src tests examples 2>/dev/null
+git reset -q --hard; git clean -fdq -e target
 git apply $out/patch.diff || { echo "$id: mutant patch does not apply"; exit 2; }
 git apply $out/demo.patch || { echo "$id: demo patch does not apply"; exit 2; }
 cargo test --offline > $out/verify_with.log 2>&1
